@@ -33,7 +33,12 @@ CLAIMED["C15"] = dict(
    ref="DESIGN.md §6 C15",
    note="Trusts: scenario templates and their host-side expectations, the SimBackend's model of open/read/write errors, the atomic-turn model. Only failure kinds in the template list are placed; builtin boundary-value search is out of scope (C12, n/a).",
    technique="deterministic simulation with fault injection (process failure as the fault): seeded interleaving search with per-process outcome oracle and panic/Err/hang detection")
-PENDING = {k: 'claimed in DESIGN.md; check under construction in this revision (not yet registered)' for k in ['C05','C06','C10','C11','C13','C14']}
+CLAIMED["C14"] = dict(
+   text="Generated systems of processes open files on a simulated backend, use them, transfer the handles by every documented route (bare message, nested in a tuple, captured by a closure sent in a message, spawn argument, spawn capture), try to use them after giving them away, leave them in mailboxes, and terminate normally or by failure, awaited or not, while the backend injects submit/completion errors, short I/O and delayed/reordered completions. After every environment turn a model of the documented ownership rules is replayed over the recorded history (events in the order the environment consumed them, calls the backend received): a request on an open resource reaches the backend iff it comes from the model owner; a rejected requester ends with a runtime error; no automatic close while the model owner is alive; the environment's table equals the model for every open resource; at quiescence every resource whose owner has terminated has been closed. Sampling, not proof. The known finding (owner never awaited => never closed) is keyed separately and does not mask other causes.",
+   ref="DESIGN.md §6 C14",
+   note="Trusts: SimBackend's model of the io_uring backend (open/close immediate, read/write/flush asynchronous), the history model of the ownership rules, the atomic-turn model. Not judged (statement silent): a handle delivered to a process whose termination was already reported; operations on closed resources.",
+   technique="deterministic simulation with fault injection: seeded interleaving + backend-fault search with a reference model of ownership replayed over the recorded history")
+PENDING = {k: 'claimed in DESIGN.md; check under construction in this revision (not yet registered)' for k in ['C05','C06','C10','C11','C13']}
 
 def main():
     checks = []
